@@ -306,6 +306,11 @@ ODD_REFS = [
     {'scheme': 'http', 'path': 'g'},
     {'scheme': 'https', 'path': ''},
     {'scheme': 'urn', 'path': 'a/../b'},
+    {'scheme': 'mailto', 'path': 'me@x.example'},
+    {'scheme': 'g', 'path': 'h'},
+    {'scheme': 'tel', 'path': '+1-201-555-0123'},
+    {'scheme': 'file', 'auth': 1, 'path': '/etc/x'},
+    {'scheme': 'HTTP', 'path': '', 'query': 'k=1', 'frag': 'f'},
 ]
 
 _TOKEN_OK = re.compile(r"^[A-Za-z0-9._~;=:@,!$'()*+&-]*$")   # no '%', no delimiter, no space: quoting is C06's business
@@ -353,6 +358,24 @@ def in_model_domain(c):
     if not (0 <= c['port'] < 65536):
         return False
     return True
+
+
+def outside_statement(r):
+    """a reference with a scheme but WITHOUT a host (`mailto:x`, `urn:a:b`, `g:h`, `https:`, `file:///p`): the statement
+    speaks about references without scheme and authority and about references with their own scheme AND host -
+    what navigate() does with this kind is left open by it (RFC 3986 5.2.2 would return the reference)"""
+    r = full(r)
+    return r['scheme'] is not None and not r['host']
+
+
+def statement_cut(case):
+    """index of the first step of the history whose reference is outside the statement (len(refs) if none): that
+    step and everything after it (those steps start from a base the statement does not determine) is compared
+    neither model-vs-implementation nor against the RFC"""
+    for i, r in enumerate(case['refs']):
+        if outside_statement(r):
+            return i
+    return len(case['refs'])
 
 
 def hx(s):
@@ -807,10 +830,13 @@ class C07(Property):
 
     # ------------------------------------------------------------------ model line
     def line(self, case):
-        if not in_model_domain(case['base']) or not all(in_model_domain(r) for r in case['refs']):
+        if not in_model_domain(case['base']) or not all(in_model_domain(r) for r in case['refs'][:statement_cut(case)]):
             return None
         api = ',A' if case.get('as_url') == 2 else ''
-        return ' '.join(['nav', enc_components(case['base'])] + [enc_components(r) + api for r in case['refs']])
+        cut = statement_cut(case)
+        # steps from the first out-of-statement reference on: token `_` on both sides (see `statement_cut`)
+        return ' '.join(['nav', enc_components(case['base'])] + [enc_components(r) + api for r in case['refs'][:cut]]
+                        + ['_'] * (len(case['refs']) - cut))
 
     # ------------------------------------------------------------------ implementation
     @staticmethod
@@ -914,7 +940,9 @@ class C07(Property):
                                    d['query'], d['frag']])
         if 'exc' in obs:
             return 'X' + obs['exc']
-        toks = [t(obs['base_after'])] + [t(s) for s in obs['steps']] + ['N'] + [t(s) for s in obs['norm']]
+        cut = statement_cut(case)
+        toks = [t(obs['base_after'])] + [t(s) for s in obs['steps'][:cut]] + ['_'] * (len(case['refs']) - cut) + \
+            ['N'] + [t(s) for s in obs['norm']]
         return ' '.join(toks)
 
     # ------------------------------------------------------------------ oracle (independent of the model)
@@ -974,7 +1002,15 @@ class C07(Property):
         cur = base_text
         judged = 0
         synced = True
+        cut = statement_cut(case)
         for i, r in enumerate(case['refs']):
+            if i >= cut:
+                # a reference with a scheme but without a host, or a step after one: the statement demands nothing
+                # of this call (not even that it returns); how the tree under test answers is recorded only
+                if i == cut and synced:
+                    self.note_outside_statement(cur, compose(r), obs['steps'][i] if i < len(obs['steps']) else None)
+                if i >= len(obs['steps']) or 'exc' in obs['steps'][i]:
+                    break
             if i >= len(obs['steps']):
                 return Failure('missing', 'no observation for step %d' % i)
             gd = obs['steps'][i]
@@ -1030,6 +1066,34 @@ class C07(Property):
             (full(r)['path'] == '' or any(s in ('.', '..', '') for s in full(r)['path'].split('/')[:-1])
              or full(r)['path'].split('/')[-1] in ('.', '..')) for r in case['refs'])
         return None
+
+    def note_outside_statement(self, cur, rt, gd):
+        """informational (evidence histogram): what the tree under test does with a reference that has a scheme but no
+        host - RFC 3986 5.2.2 returns the reference itself (dot segments removed); boltons HEAD merges its path into
+        the base path and keeps the base authority"""
+        st = self.stats
+        try:
+            if gd is None or 'exc' in gd:
+                kind = 'raises'
+            elif same_uri(gd['text'], rfc_resolve(cur, rt)) or same_uri(gd['text'], rt):
+                kind = 'the reference itself is returned (the RFC 3986 5.2.2 target)'
+            else:
+                rp = rfc_parse(rt)
+                tgt = rfc_parse(rfc_resolve(cur, rfc_recompose(None, *rp[1:])))
+                if same_uri(gd['text'], rfc_recompose(rp[0], *tgt[1:])):
+                    kind = 'resolved like the same reference without its scheme, then the scheme replaced (base authority kept)'
+                else:
+                    kind = 'something else'
+        except Exception:       # noqa: BLE001  (informational only)
+            kind = 'unclassified'
+        key = 'ref_with_scheme_without_host (outside the statement, not compared): ' + kind
+        st[key] = st.get(key, 0) + 1
+        ex = st.setdefault('ref_with_scheme_without_host_examples', [])
+        shown = '%s + %s -> %s' % (cur, rt, 'raises ' + gd['exc'] if gd and 'exc' in gd else gd and gd['text'])
+        seen = self.__dict__.setdefault('_outside_seen', set())
+        if len(ex) < 12 and rt not in seen:
+            seen.add(rt)
+            ex.append(shown)
 
     def count_shape(self, ref_text):
         st = self.stats
